@@ -24,9 +24,60 @@ import (
 
 // ---------------------------------------------------------------- recording pipe
 
+// verifC13Half is one direction of the pipe: every byte written, kept in 64 KiB chunks
+// (large contiguous buffers are very expensive under the race detector).
 type verifC13Half struct {
-	log []byte // every byte written in this direction
-	rd  int    // how much the reading end has consumed
+	chunks [][]byte
+	total  int
+	rc, ro int // read position: chunk, offset
+}
+
+const verifC13Chunk = 64 << 10
+
+func (h *verifC13Half) write(p []byte) {
+	h.total += len(p)
+	for len(p) > 0 {
+		k := len(h.chunks) - 1
+		if k < 0 || len(h.chunks[k]) == cap(h.chunks[k]) {
+			c := verifC13Chunk
+			if h.total < 4096 {
+				c = 4096
+			}
+			h.chunks = append(h.chunks, make([]byte, 0, c))
+			k++
+		}
+		n := cap(h.chunks[k]) - len(h.chunks[k])
+		if n > len(p) {
+			n = len(p)
+		}
+		h.chunks[k] = append(h.chunks[k], p[:n]...)
+		p = p[n:]
+	}
+}
+
+func (h *verifC13Half) read(p []byte) int {
+	for h.rc < len(h.chunks) {
+		c := h.chunks[h.rc]
+		if h.ro < len(c) {
+			n := copy(p, c[h.ro:])
+			h.ro += n
+			return n
+		}
+		if h.rc == len(h.chunks)-1 {
+			return 0
+		}
+		h.rc, h.ro = h.rc+1, 0
+	}
+	return 0
+}
+
+// bytes returns the log as one slice (only for error reports).
+func (h *verifC13Half) bytes() []byte {
+	out := make([]byte, 0, h.total)
+	for _, c := range h.chunks {
+		out = append(out, c...)
+	}
+	return out
 }
 
 type verifC13End struct {
@@ -36,19 +87,18 @@ type verifC13End struct {
 }
 
 func (e *verifC13End) Read(p []byte) (int, error) {
-	if e.in.rd >= len(e.in.log) {
-		e.starved = true // the harness only reads what has been written: should not happen
-		return 0, io.EOF
-	}
 	if e.maxRead > 0 && len(p) > e.maxRead {
 		p = p[:e.maxRead]
 	}
-	n := copy(p, e.in.log[e.in.rd:])
-	e.in.rd += n
+	n := e.in.read(p)
+	if n == 0 && len(p) > 0 {
+		e.starved = true // the harness only reads what has been written: should not happen
+		return 0, io.EOF
+	}
 	return n, nil
 }
 func (e *verifC13End) Write(p []byte) (int, error) {
-	e.out.log = append(e.out.log, p...)
+	e.out.write(p)
 	return len(p), nil
 }
 func (e *verifC13End) Close() error                       { return nil }
@@ -101,6 +151,7 @@ type verifC13ReadSpec struct {
 	rchunk  int
 	jsonVal interface{}
 	idx     int
+	size    int
 }
 
 type verifC13Side struct {
@@ -244,11 +295,14 @@ func (p *verifC13Pair) write(op *verifC13Op, idx int) {
 	off := idx % 8
 	switch op.api {
 	case "WriteMessage":
-		sub, whole := verifC13Guarded(op.data, len(op.data), off)
+		sub, whole := op.data, []byte(nil)
+		if len(op.data) <= 256<<10 {
+			sub, whole = verifC13Guarded(op.data, len(op.data), off)
+		}
 		if err := c.WriteMessage(op.typ, sub); err != nil {
 			p.viol(sig, "WriteMessage(%d bytes): %v", len(op.data), err)
 		}
-		if !verifC13GuardsOK(whole, off, len(op.data)) {
+		if whole != nil && !verifC13GuardsOK(whole, off, len(op.data)) {
 			p.viol("c13:guard-bytes-changed:write", "bytes around the buffer given to WriteMessage changed")
 		}
 	case "NextWriter", "WriteString":
@@ -317,14 +371,14 @@ func (p *verifC13Pair) write(op *verifC13Op, idx int) {
 			p.viol("c13:write-error:Prepared:"+verifC13Role(!op.fromClient), "WritePreparedMessage: %v", err)
 		}
 		to.sent = append(to.sent, verifC13Msg{op.typ, op.data})
-		from.pend = append(from.pend, verifC13ReadSpec{"ReadMessage", 0, nil, idx})
+		from.pend = append(from.pend, verifC13ReadSpec{"ReadMessage", 0, nil, idx, len(op.data)})
 	case "WriteJSON":
 		if err := c.WriteJSON(op.jsonVal); err != nil {
 			p.viol(sig, "WriteJSON: %v", err)
 		}
 	}
 	from.sent = append(from.sent, verifC13Msg{op.typ, op.data})
-	to.pend = append(to.pend, verifC13ReadSpec{op.reader, op.rchunk, op.jsonVal, idx})
+	to.pend = append(to.pend, verifC13ReadSpec{op.reader, op.rchunk, op.jsonVal, idx, len(op.data)})
 }
 
 func verifC13Short(v []int) string {
@@ -335,7 +389,7 @@ func verifC13Short(v []int) string {
 }
 
 // read lets the receiving side read the next message with the op's reader API.
-func (p *verifC13Pair) read(side *verifC13Side, reader string, rchunk int, jsonVal interface{}, idx int) {
+func (p *verifC13Pair) read(side *verifC13Side, reader string, rchunk int, jsonVal interface{}, idx int, sizeHint int) {
 	c := side.c
 	sig := "c13:read-error:" + reader + ":" + side.role.String()
 	switch reader {
@@ -360,7 +414,7 @@ func (p *verifC13Pair) read(side *verifC13Side, reader string, rchunk int, jsonV
 			p.viol(sig, "NextReader: %v", err)
 			return
 		}
-		var data []byte
+		data := make([]byte, 0, sizeHint+1) // capacity only: what arrives decides the length
 		off := idx % 8
 		_, whole := verifC13Guarded(nil, rchunk, off)
 		lo := verifC13GuardLen + off
@@ -406,7 +460,7 @@ func (p *verifC13Pair) run(ops []verifC13Op, batch func() int) {
 				if p.failed {
 					break
 				}
-				p.read(side, rs.reader, rs.rchunk, rs.jsonVal, rs.idx)
+				p.read(side, rs.reader, rs.rchunk, rs.jsonVal, rs.idx, rs.size)
 			}
 			side.pend = side.pend[:0]
 		}
@@ -437,23 +491,27 @@ func (p *verifC13Pair) check() {
 	type dir struct {
 		name     string
 		from, to *verifC13Side
-		log      []byte
+		half     *verifC13Half
 	}
-	for _, d := range []dir{{"client->server", p.cl, p.sv, p.c2s.log}, {"server->client", p.sv, p.cl, p.s2c.log}} {
-		ps := refws.ParseLog(d.from.role, p.cfg.comp, d.log)
+	for _, d := range []dir{{"client->server", p.cl, p.sv, p.c2s}, {"server->client", p.sv, p.cl, p.s2c}} {
+		ps := refws.NewParser(d.from.role, p.cfg.comp)
+		for _, c := range d.half.chunks {
+			ps.Feed(c)
+		}
 		if e := ps.Finish(); e != nil {
+			log := d.half.bytes()
 			lo := int(e.Offset) - 32
 			if lo < 0 {
 				lo = 0
 			}
 			hi := int(e.Offset) + 64
-			if hi > len(d.log) {
-				hi = len(d.log)
+			if hi > len(log) {
+				hi = len(log)
 			}
-			p.viol("c13:wire-invalid:"+e.Code+":"+d.from.role.String(), "%s: %v; bytes around the frame: %x", d.name, e, d.log[lo:hi])
+			p.viol("c13:wire-invalid:"+e.Code+":"+d.from.role.String(), "%s: %v; bytes around the frame: %x", d.name, e, log[lo:hi])
 			continue
 		}
-		m.Count("wire_bytes", int64(len(d.log)))
+		m.Count("wire_bytes", int64(d.half.total))
 		for _, f := range ps.Frames() {
 			m.Count("frames_parsed", 1)
 			m.Count(fmt.Sprintf("frames_len%d", int(f.Form)), 1)
@@ -948,7 +1006,7 @@ func TestVerif_C13_Mem(t *testing.T) {
 				p.check()
 			})
 			if m.WantSample() && !p.failed {
-				m.Sample(map[string]interface{}{"config": fmt.Sprintf("%+v", cfg), "ops": p.opLog, "c2s_bytes": len(p.c2s.log), "s2c_bytes": len(p.s2c.log)})
+				m.Sample(map[string]interface{}{"config": fmt.Sprintf("%+v", cfg), "ops": p.opLog, "c2s_bytes": p.c2s.total, "s2c_bytes": p.s2c.total})
 			}
 		})
 	}
